@@ -141,6 +141,10 @@ class ExhaustiveGateRemovalPass(BasePass):
                         expanded_circuits.append(copy)
                         circuits_seen.add(structure)
 
+            # Nothing left to remove
+            if len(expanded_circuits) == 0:
+                break
+
             # Instantiate them all
             instantiated_circuits = await get_runtime().map(
                 Circuit.instantiate,
